@@ -295,6 +295,30 @@ func c13judgeLayer(rec *mon.Recorder, cell string, hs headerSet) {
 				return m.UnmarshalCBOR(refcbor.Encode(refcbor.NTag(18, refcbor.NArr(refcbor.NBstr([]byte{}), refcbor.NMap(refcbor.NInt(11), g), refcbor.NBstr([]byte("p")), refcbor.NBstr(sigOK)))))
 			}},
 	}
+	// the same layer with one bucket's raw bytes retained (as after decoding a message and editing the
+	// other bucket): only when that bucket is valid on its own, so raw and parsed agree
+	protOK := refcose.HeaderRulesGo(hs.goProt, nil, true, false) == nil
+	unprotOK := refcose.HeaderRulesGo(nil, hs.goUnprot, false, true) == nil
+	if protOK && len(hs.goProt) > 0 {
+		codecs = append(codecs, codec{"Sign1Message(raw protected retained)",
+			func() error {
+				h := hdr()
+				h.RawProtected = pb
+				_, err := (&cose.Sign1Message{Headers: h, Payload: []byte("p"), Signature: sigOK}).MarshalCBOR()
+				return err
+			},
+			func() error { var m cose.Sign1Message; return m.UnmarshalCBOR(refcbor.Encode(sig1)) }})
+	}
+	if unprotOK && len(hs.goUnprot) > 0 {
+		codecs = append(codecs, codec{"Signature(raw unprotected retained)",
+			func() error {
+				h := hdr()
+				h.RawUnprotected = refcbor.Encode(un)
+				_, err := (&cose.Signature{Headers: h, Signature: sigOK}).MarshalCBOR()
+				return err
+			},
+			func() error { var m cose.Signature; return m.UnmarshalCBOR(refcbor.Encode(g)) }})
+	}
 	for _, cd := range codecs {
 		in := map[string]any{"cell": cell, "codec": cd.name, "go_protected": fmt.Sprintf("%#v", hs.goProt), "go_unprotected": fmt.Sprintf("%#v", hs.goUnprot), "wire_layer": hexs(refcbor.Encode(sig1))}
 		var eErr, dErr error
